@@ -250,7 +250,7 @@ class SpecArray(object):
         chunks = {attrs.FREQNAME: -1}
 
         # Slice directions
-        if attrs.DIRNAME in other.dims and (dmin or dmax):
+        if attrs.DIRNAME in other.dims and (dmin is not None or dmax is not None):
             other = other.sortby([attrs.DIRNAME]).sel(
                 {attrs.DIRNAME: slice(dmin, dmax)}
             )
@@ -783,7 +783,7 @@ class SpecArray(object):
             - If names is provided, its length must correspond to the length of stats.
 
         """
-        if any((fmin, fmax, dmin, dmax)):
+        if any(lim is not None for lim in (fmin, fmax, dmin, dmax)):
             spectra = self.split(fmin=fmin, fmax=fmax, dmin=dmin, dmax=dmax)
         else:
             spectra = self._obj
